@@ -42,6 +42,9 @@ def gen_decls(rng, depth, counter):
     return decls
 
 
+NOCASE_MODE = [False]
+
+
 def gen_instances(rng, decls):
     n = Node(decls)
     for d in decls:
@@ -50,7 +53,8 @@ def gen_instances(rng, decls):
         if d.is_multi:
             cnt = rng.choice([0, 1, 2, 2, 3]) if rng.random() < 0.95 else 12      # (two-digit indices)
             if d.flags & F_TITLE:
-                titles = rng.sample(TITLES, cnt) if cnt <= len(TITLES) else ['t%d' % k for k in range(cnt)]
+                pool = [t for t in TITLES if t != 'A'] + ['Web Two'] if NOCASE_MODE[0] else TITLES     # (no two titles that differ in letter case only, under a case-insensitive context)
+                titles = rng.sample(pool, cnt) if cnt <= len(pool) else ['t%d' % k for k in range(cnt)]
             else:
                 titles = [None] * cnt
         else:
@@ -135,7 +139,7 @@ def make_queries(rng, root):
                 steps.append([leaf.name, 'n', '-'])
             path = '|'.join(texts)
             Q.append({'kind': kind, 'path': path, 'steps': steps, 'exp': 'resolve', 'leaf': leaf.typ if leaf else None,
-                      'leaflist': bool(leaf and leaf.is_list)})
+                      'leaflist': bool(leaf and leaf.is_list), 'parent': '|'.join(texts[:-1])})
             # broken variants
             B = []
             B.append(('leading-sep', '|' + path))
@@ -186,6 +190,16 @@ def make_queries(rng, root):
                     B.append(('garbage-index', '|'.join(t8)))
             for tag, bp in B:
                 Q.append({'kind': kind, 'path': bp, 'steps': None, 'exp': 'none', 'tag': tag, 'leaf': leaf.typ if leaf else None})
+            # a title spelled in other letter case: whether that matches is the single-level accessor's business - the by-path calls must simply agree with it
+            for j, (d, k, c) in enumerate(chain):
+                if d.is_multi and d.flags & F_TITLE and c.title and c.title.swapcase() != c.title:
+                    vt = c.title.swapcase()
+                    tx, st = list(texts), [list(x) for x in steps]
+                    tx[j] = d.name + '=' + (quote_title(vt) if rng.random() < 0.5 or not bare_ok(vt) else vt)
+                    st[j] = [d.name, 't', vt]
+                    Q.append({'kind': kind, 'path': '|'.join(tx), 'steps': st, 'exp': 'walk', 'tag': 'case-variant-title', 'leaf': leaf.typ if leaf else None,
+                              'leaflist': bool(leaf and leaf.is_list), 'parent': '|'.join(tx[:-1])})
+                    break
     for p in ['=', '|', '==', '||', '=x', "='", "='x", '|=', '=|', "'", '\\']:
         Q.append({'kind': rng.choice(['opt', 'sec']), 'path': p, 'steps': None, 'exp': 'none', 'tag': 'degenerate', 'leaf': None})
     return Q
@@ -204,10 +218,13 @@ def gen(tier, seed):
     for i in range(n):
         counter = [0]
         decls = gen_decls(rng, 0, counter)
+        nocase = rng.random() < 0.35
+        NOCASE_MODE[0] = nocase
         root = gen_instances(rng, decls)
         text = '\n'.join(render_text(root)) + '\n'
         Q = make_queries(rng, root)
-        yield {'decls': [d.to_json() for d in decls], 'text': text, 'q': Q, 'seed': '%d/%d' % (seed, i)}
+        yield {'decls': [d.to_json() for d in decls], 'text': text, 'q': Q, 'seed': '%d/%d' % (seed, i), 'flags': core.F_NOCASE if nocase else 0,
+               'rmvariant': rng.random() < 0.5}
 
 
 # ---- script
@@ -215,7 +232,7 @@ def gen(tier, seed):
 def script(spec):
     decls = [D.from_json(j) for j in spec['decls']]
     lines, sid = schema.emit_schema(decls)
-    lines.append('init 0 %d 0' % sid)
+    lines.append('init 0 %d %d' % (sid, spec.get('flags', 0)))
     lines.append('parse_buf 0 %s' % hx(spec['text']))
     lines.append('dump 0')
     for q in spec['q']:
@@ -249,11 +266,18 @@ def script(spec):
             lines.append('setstr 0 %s %s' % (hx(setq['path']), hx('by-path')))
         lines.append('dump 0')
     rmq = next((q for q in reversed(res) if q['kind'] == 'sec'), None)
+    if spec.get('rmvariant'):
+        rmq = next((q for q in spec['q'] if q['exp'] == 'walk' and q['kind'] == 'sec'), rmq)
     if rmq:
         lines.append('note rm')
         st = ' '.join('%s %s %s' % (hx(s[0]), s[1], hx(s[2]) if s[1] == 't' else s[2]) for s in rmq['steps'])
         lines.append('step 0 sec %d %s' % (len(rmq['steps']), st))
-        lines.append('rmsec 0 %s' % hx(rmq['path']))
+        if rmq['steps'][-1][1] == 't' and zlib.crc32(rmq['path'].encode('latin-1')) % 2:
+            # the by-title remover, its option addressed by path: cfg_rmtsec(cfg, "a=1|b", title)
+            parent = rmq['parent'] + '|' if rmq.get('parent') else ''
+            lines.append('rmtsec 0 %s %s' % (hx(parent + rmq['steps'][-1][0]), hx(rmq['steps'][-1][2])))
+        else:
+            lines.append('rmsec 0 %s' % hx(rmq['path']))
         lines.append('dump 0')
     return '\n'.join(lines)
 
@@ -310,6 +334,16 @@ def judge(spec, events, death):
             q = spec['q'][qi]
             qi += 1
             looks = [e for e in evs if e.get('ev') == 'look']
+            if q['exp'] == 'walk':
+                if len(looks) < 2:
+                    v.bad('harness:short-log', 'lookup events missing')
+                    return v
+                v.notes['case_variant_lookups'] = v.notes.get('case_variant_lookups', 0) + 1
+                v.notes['resolving_lookups'] = v.notes.get('resolving_lookups', 0) + 1
+                if looks[0]['pos'] != looks[1]['pos']:
+                    v.bad('%s:disagrees-with-walk:case-variant-title:%s' % ('getopt' if q['kind'] == 'opt' else 'getsec', 'nocase' if spec.get('flags') else 'case-sensitive'),
+                          'path %r: by-path lookup gave %s, stepwise navigation with the same spelling gives %s' % (q['path'], looks[1]['pos'], looks[0]['pos']))
+                continue
             if q['exp'] == 'resolve':
                 if len(looks) < 2:
                     v.bad('harness:short-log', 'lookup events missing')
@@ -365,7 +399,13 @@ def judge(spec, events, death):
             look = [e for e in evs if e.get('ev') == 'look']
             ret = [e for e in evs if e.get('ev') == 'r']
             dmp = [e for e in evs if e.get('ev') == 'dump']
-            if not look or not ret or not dmp or look[0]['pos'] is None:
+            if not look or not ret or not dmp:
+                continue
+            if look[0]['pos'] is None:
+                # the stepwise walk finds nothing under this spelling: the remover must fail and change nothing
+                v.notes['rmsec_checks'] = v.notes.get('rmsec_checks', 0) + 1
+                if ret[0]['rc'] == 0 or strip_secmod(json.loads(base)) != strip_secmod(dmp[0]['tree']):
+                    v.bad('rmsec:removed-what-the-walk-does-not-find', 'cfg_rmsec(path) rc=%s although stepwise navigation with the same spelling finds no such section' % ret[0]['rc'])
                 continue
             pos = look[0]['pos']          # e.g. 0:2.1:0.0  -> remove instance .0 of option 0:2.1:0
             exp = json.loads(base)
